@@ -12,7 +12,6 @@ package ipsetsink
 //
 //@ func NewIPSetSink(maskingKey string) (r *IPSetSink)
 //@   props C19
-//@   flag nosafety
 //@   ensures {remembers-the-key-it-was-given} r != nil && r.ipMaskingKey == maskingKey
 //
 //@ ghost var digest ref
